@@ -518,12 +518,12 @@ class NameConverter(ast.NodeTransformer):
 
         def _make_lookup_call(key, arg):
             name = (
-                "__SUBTLER_TYPE"
+                "__SUBTLER_TYPE__"
                 if self.analysis.lookup_for(key) is subtler_type
-                else "__PLAIN_TYPE"
+                else "__PLAIN_TYPE__"
             )
             value = ast.NamedExpr(
-                target=ast.Name(id=f"{tmp}{key}", ctx=ast.Store()),
+                target=ast.Name(id=f"{tmp}{key}__", ctx=ast.Store()),
                 value=self.visit(arg),
             )
             func = ast.Name(id=name, ctx=ast.Load())
@@ -557,7 +557,7 @@ class NameConverter(ast.NodeTransformer):
             func=method,
             args=selfarg
             + [
-                ast.Name(id=f"{tmp}{i}", ctx=ast.Load())
+                ast.Name(id=f"{tmp}{i}__", ctx=ast.Load())
                 for i, arg in enumerate(node.args)
             ],
             keywords=[],
@@ -723,10 +723,12 @@ def closure_wrap(tree, fname, names):
 
 
 def recode(fn, ovld, recurse_sym, call_next_sym, newname):
-    ovld_mangled = f"___OVLD{ovld.id}"
-    map_mangled = f"___MAP{ovld.id}"
-    code_mangled = f"___CODE{next(_current)}"
-    dyn_mangled = f"___DYN{ovld.id}"
+    # Generated names end with two underscores: inside a class statement nested
+    # in the method they would otherwise get class-private name mangling
+    ovld_mangled = f"___OVLD{ovld.id}__"
+    map_mangled = f"___MAP{ovld.id}__"
+    code_mangled = f"___CODE{next(_current)}__"
+    dyn_mangled = f"___DYN{ovld.id}__"
     try:
         src = inspect.getsource(fn)
     except OSError:  # pragma: no cover
@@ -787,9 +789,9 @@ def recode(fn, ovld, recurse_sym, call_next_sym, newname):
     new_fn.__kwdefaults__ = fn.__kwdefaults__
     new_fn.__annotations__ = fn.__annotations__
     new_fn = rename_function(new_fn, newname)
-    new_fn.__globals__["__SUBTLER_TYPE"] = subtler_type
+    new_fn.__globals__["__SUBTLER_TYPE__"] = subtler_type
     # Not the bare name: the method may have a parameter or local called `type`
-    new_fn.__globals__["__PLAIN_TYPE"] = type
+    new_fn.__globals__["__PLAIN_TYPE__"] = type
     new_fn.__globals__[ovld_mangled] = ovld.dispatch
     new_fn.__globals__[map_mangled] = ovld.map
     new_fn.__globals__[code_mangled] = new_fn.__code__
